@@ -221,9 +221,12 @@ fn run(s: &[i128]) -> Vec<i128> {
         }
         3 => {
             let factor = if p[5] == 0 { 0.0 } else { p[4] as f64 / p[5] as f64 };
-            let b: Arc<dyn RetryBudget> = RetryBudgetBuilder::new()
-                .aimd()
-                .min_budget(p[0] as usize)
+            // p0 < 0: min_budget is left unset (the builder's default floor)
+            let mut bld = RetryBudgetBuilder::new().aimd();
+            if p[0] >= 0 {
+                bld = bld.min_budget(p[0] as usize);
+            }
+            let b: Arc<dyn RetryBudget> = bld
                 .max_budget(p[1] as usize)
                 .deposit_amount(p[2] as usize)
                 .withdraw_amount(p[3] as usize)
